@@ -15,7 +15,7 @@ RULE = ('Hypothesis draws message (body class incl. empty/block-boundary/binary/
         'encryptor (SKESK with/without encrypted session key, salted/iterated S2K, PKESK RSA/ECDH, SEIPD or tag-9 container, old/new/'
         'partial inner headers) and PGPy decrypts. Non-trivial: >=2 recipients, or non-default cipher/compression, or body > one '
         'cipher block, or foreign-produced; distinct by (direction, cipher, recipient kinds, compression, body class).')
-RULE += ' Backward PKESK packets may leave the key id zero (hidden recipient); RSA recipients also under algorithm id 2. Text under format t in a declared character set (cp1252, koi8-r, latin-1) must read back as given when the transport is armored. Backward messages may carry a further PKESK for a recipient of an unknown public-key algorithm. Messages of the cleartext framework are encrypted too (refusal or the same text). Backward cases include an SKESK whose own cipher differs (also in key size) from the data cipher. Inner packets also with old-format indeterminate lengths; ECDH session keys padded to 40/48 octets (RFC 6637 8); RSA recipients whose modulus length is not a multiple of 8 bits; messages exported before being signed; the export of the decrypted message must be a grammar-conformant message (no MDC leftovers).'
+RULE += ' Forward: with several recipients the caller may forget to pass the session key on (refusal, or everybody decrypts). Backward PKESK packets may leave the key id zero (hidden recipient); RSA recipients also under algorithm id 2. Text under format t in a declared character set (cp1252, koi8-r, latin-1) must read back as given when the transport is armored. Backward messages may carry a further PKESK for a recipient of an unknown public-key algorithm. Messages of the cleartext framework are encrypted too (refusal or the same text). Backward cases include an SKESK whose own cipher differs (also in key size) from the data cipher. Inner packets also with old-format indeterminate lengths; ECDH session keys padded to 40/48 octets (RFC 6637 8); RSA recipients whose modulus length is not a multiple of 8 bits; messages exported before being signed; the export of the decrypted message must be a grammar-conformant message (no MDC leftovers).'
 ASSUMPTIONS = ['refpgp.enc is an independent RFC 4880 5.1/5.3/5.13/13.9 + RFC 6637 + RFC 3394 implementation sharing only block ciphers, '
                'RSA/ECDH primitives and hashlib with PGPy', 'a supplied session key has exactly the cipher key size (documented precondition)',
                'literal time compared at the wire resolution of one second']
@@ -31,6 +31,7 @@ def case_strategy(tier):
         'recips': enckit.recipient_strategy(fast=(tier == 'quick')),
         'armored': st.booleans(),
         'supplied': st.booleans(),
+        'forget': st.sampled_from([False, False, False, True]),
         'bwd': st.fixed_dictionaries({
             'container': st.sampled_from([18, 18, 18, 9]),
             'esk': st.booleans(),
@@ -78,8 +79,18 @@ def eval_forward(case, rec):
     try:
         msg = enckit.build_pgpy_message(spec)
         expect = enckit.snapshot(msg)
-        supplied = SymmetricKeyAlgorithm(cipher).gen_key() if (case['supplied'] or len(recips) > 1) else None
-        encm, sk = enckit.pgpy_encrypt(msg, recips, cipher, supplied)
+        forget = bool(case.get('forget')) and len(recips) > 1
+        supplied = SymmetricKeyAlgorithm(cipher).gen_key() if (case['supplied'] or len(recips) > 1) and not forget else None
+        try:
+            encm, sk = enckit.pgpy_encrypt(msg, recips, cipher, supplied, forget=forget)
+        except Exception:   # noqa
+            if not forget:
+                raise
+            # adding a recipient to an encrypted message without saying which session key it has: a refusal is the honest answer
+            rec.note('fwd/further-recipient-without-session-key/refused')
+            return
+        if forget:
+            rec.note('fwd/further-recipient-without-session-key/accepted')
         blob = str(encm) if case['armored'] else bytes(encm)
     except Exception as e:   # noqa
         rec.finding('fwd/encrypt', 'exception/' + harness.exc_key(e), case, repr(e))
@@ -110,6 +121,8 @@ def eval_forward(case, rec):
             cause = 'exception/' + harness.exc_key(e)
             if mixed and isinstance(e, AttributeError):
                 cause = 'mixed-recipients-attributeerror'
+            if forget:
+                cause = 'further-recipient-without-session-key'
             rec.finding('fwd/pgpy-decrypt', cause, case, '%s: %r' % (who, e))
             continue
         # what decrypt() returns is a message again: its export follows the 11.3 grammar (no MDC or other container leftovers)
@@ -142,7 +155,8 @@ def eval_forward(case, rec):
             else:
                 res = enc.decrypt_message(binblob, seckeys=[keypool.ref_secret(r['kid'])])
         except wire.WireError as e:
-            rec.finding('fwd/ref-decrypt', 'pass/h%d' % r['h'] if r['t'] == 'pass' else 'key/' + recip_kinds([r])[0], case, '%s: %s' % (who, e))
+            rec.finding('fwd/ref-decrypt', 'further-recipient-without-session-key' if forget else 'pass/h%d' % r['h'] if r['t'] == 'pass' else 'key/' + recip_kinds([r])[0],
+                        case, '%s: %s' % (who, e))
             continue
         if res['sym'] != cipher or len(res['session_key']) != rsym.KEYLEN[cipher]:
             rec.finding('fwd/session-key', 'size-or-cipher', case, 'sym %d keylen %d' % (res['sym'], len(res['session_key'])))
